@@ -290,7 +290,42 @@ class C15(Profile):
         return cfg
 
 
-PROFILES = {"C15": C15(), "C07": C07(), "C11": C11(), "C08": C08(), "C02": C02(), "C09": C09(), "C10": C10()}
+class C14(Profile):
+    name = "C14"
+    steps = (30, 55)
+    runs = {"quick": 1200, "thorough": 40000}
+    expected_probes = ["map_checked", "default_model_map", "noisy_model_map",
+                       "same_seed_remap", "resample_loop_scripted",
+                       "phase_offsets_checked", "draw_checked"]
+    stubs = Profile.stubs + [
+        "scripted numpy Generator inside one Distribution (installed through "
+        "the public set_random_seed with the module name `random` shimmed)"]
+
+    @property
+    def monitors(self):
+        from .interf import ReckMonitor  # noqa: PLC0415
+        return [ReckMonitor]
+
+    @property
+    def clients(self):
+        from .interf import MapperClient  # noqa: PLC0415
+        return [(cl.Builder, 3), (cl.Composer, 1), (MapperClient, 5),
+                (cl.Bystander, 0.3)]
+
+    def swarm(self, rng):
+        cfg = super().swarm(rng)
+        cfg["max_modes"] = rng.randint(2, 6)
+        cfg["max_total_modes"] = 7
+        cfg["reck_max_modes"] = 6
+        cfg["max_params"] = 0
+        cfg["p_param"] = 0
+        cfg["convert"] = False
+        cfg["weights"]["mapper"] = max(cfg["weights"]["mapper"], 2.5)
+        cfg["no_loss"] = True
+        return cfg
+
+
+PROFILES = {"C14": C14(), "C15": C15(), "C07": C07(), "C11": C11(), "C08": C08(), "C02": C02(), "C09": C09(), "C10": C10()}
 
 
 def get(name: str) -> Profile:
